@@ -205,11 +205,11 @@ pub fn run(ctx: &Ctx) -> Report {
     let (mut b, mut c) = if ctx.tier == crate::core::Tier::Quick {
         std::thread::scope(|s| {
             let hb = s.spawn(|| crate::props::bddsweep::run_all(ctx));
-            let hc = s.spawn(|| crate::props::sddsweep::run_all(ctx, false));
+            let hc = s.spawn(|| crate::props::sddsweep::run_cold_only(ctx));
             (hb.join().expect("bdd sweep"), hc.join().expect("sdd sweep"))
         })
     } else {
-        (crate::props::bddsweep::run_all(ctx), crate::props::sddsweep::run_all(ctx, false))
+        (crate::props::bddsweep::run_all(ctx), crate::props::sddsweep::run_cold_only(ctx))
     };
     crate::props::bddsweep::filter_for(&mut b, "C16");
     b.rule = String::new();
